@@ -39,7 +39,12 @@ def keyReport (priv pub : List Char) (kp : Bytes) : String :=
   let both2 := if pp.isSome then okHex (some kp) else "err"
   -- without configured trusted keys a node trusts exactly its own public key
   let deftrust := if pp.isSome then okHex (some kp) else "err"
-  s!"privparse={privparse} pubparse={okHex pk} pair={pair} crypto={crypto} both={both} bothnopub={both2} deftrust={deftrust}"
+  -- Crypto::public_key_from_private_key: the printed form of the public key that belongs to the private key
+  let derived := if pp.isSome then "ok:" ++ textOrDash ((toBase62 kp).getD ['!']) else "err"
+  -- trusted keys as configured: [own public key, another key] and the other order (only when the printed public key is the pair's)
+  let other : Bytes := List.replicate 32 7
+  let trust2 := if pp.isSome && pk == some kp then s!"{Bytes.toHexOrDash kp}+{Bytes.toHexOrDash other}|{Bytes.toHexOrDash other}+{Bytes.toHexOrDash kp}" else "?"
+  s!"privparse={privparse} pubparse={okHex pk} pair={pair} crypto={crypto} both={both} bothnopub={both2} deftrust={deftrust} derived={derived} trust2={trust2}"
 
 def b62Step (t : List String) (implObs : String) : Option (String × String) :=
   match t with
@@ -90,6 +95,10 @@ def b62Step (t : List String) (implObs : String) : Option (String × String) :=
           field implObs "pair" = some "ok" && field implObs "crypto" = some "ok" &&
           -- "denotes the same keys" also next to a password in the same configuration
           field implObs "both" = some want && field implObs "bothnopub" = some want && field implObs "deftrust" = some want &&
+          -- "accepted when configured as ... trusted key": the node's own public key listed next to another one stays trusted
+          field implObs "trust2" = some (let o := Bytes.toHexOrDash (List.replicate 32 7); s!"{Bytes.toHexOrDash kp}+{o}|{o}+{Bytes.toHexOrDash kp}") &&
+          -- "a private key always yields its matching public key"
+          field implObs "derived" = some ("ok:" ++ textOrDash ((toBase62 kp).getD ['!'])) &&
           (op = "seedcheck" || field implObs "again" = some "same") &&
           parsePublicKey implPub = some kp && (C18.parsePrivateKey implPriv).isSome
         some (m, if good then "ok" else "FAIL generated-key-not-usable")
